@@ -72,6 +72,11 @@ const HB: u64 = 1000;
 
 fn gen(seed: u64, tier: Tier) -> Plan {
     let mut rng = Rng::new(seed);
+    if rng.chance(1, 12) {
+        // rebroadcast family: prefix = genesis period (3..5), dts[0] = offset of the offered block
+        let dts = vec![*rng.pick(&[100u64, 300, 700, 1200, 1700]) + rng.below(50)];
+        return Plan { seed, mode: "atr-work".into(), prefix: rng.range(3, 5) as usize, txs: vec![], dts, blocks: vec![], mid_chain: false, boundary: false, bad_ticket: None, ticket_fee_path: None };
+    }
     if rng.chance(1, 2) {
         let n = rng.range(1, if tier == Tier::Quick { 6 } else { 8 }) as usize;
         let txs = (0..n)
@@ -191,6 +196,123 @@ fn add_path(w: &World, tx: &mut Transaction, user: usize, kind: &str) {
     }
 }
 
+/// rebroadcast family: past the genesis window every block carries rebroadcast (ATR) transactions that the
+/// producer itself generates and that charge a fee. They are nobody's routed transactions: a block whose only
+/// "routing work" is a path somebody attached to them must not pass the work gate
+fn atr_work_family(plan: &Plan) -> RunResult {
+    let mut r = RunResult::default();
+    let gp = plan.prefix as u64;
+    let params = Params { genesis_period: gp, heartbeat: HB, n_users: 3, slips_per_user: 4, base_amount: 5_000_000 };
+    let mut rng = Rng::new(mix(plan.seed, 0xa7c));
+    let mut c = match crate::util::guarded(|| Chain::new(plan.seed, params.clone(), 8)) {
+        Ok(Ok(c)) => c,
+        _ => {
+            r.discarded = true;
+            return r;
+        }
+    };
+    // history past the window, with fee-paying payments so that the fee level (and so the rebroadcast fee) is > 0
+    let target = gp + 2 + rng.below(gp);
+    while c.tip_rec().id < target {
+        let mut txs = vec![];
+        let mut used = vec![];
+        for _ in 0..2 {
+            let user = 1 + rng.usize_below(3);
+            if let Some((t, inp)) = c.payment(user, 1 + rng.usize_below(3), rng.usize_below(64), 40_000 + rng.below(100_000), 0, &used) {
+                used.push(inp.key());
+                txs.push(t);
+            }
+        }
+        if txs.is_empty() {
+            let tag = c.tag();
+            let ts = c.tip_rec().ts + tag;
+            txs.push(make_tx(&c.keys[1].clone(), &[], &[(c.keys[1].pk, 0)], ts, &tag.to_le_bytes()));
+        }
+        let tip_hash = c.tip_rec().hash;
+        let want = (c.tip_rec().id + 1) % 2 == 0;
+        let gt = want || !c.node.bc.is_golden_ticket_count_valid(tip_hash, want, false, false);
+        if !matches!(crate::util::guarded(|| c.extend(txs, gt, 2 * HB + 300)), Ok(Ok(_))) {
+            r.discarded = true;
+            r.probe("atr_family_producer_refused");
+            return r;
+        }
+    }
+    let prec = c.tip_rec().clone();
+    let parent_burnfee = prec.burnfee;
+    let dt = plan.dts.first().cloned().unwrap_or(300).clamp(1, 2 * HB - 1);
+    let tag = c.tag();
+    let plain = make_tx(&c.keys[1].clone(), &[], &[(c.keys[1].pk, 0)], prec.ts + tag, &tag.to_le_bytes());
+    let need_gt = !c.node.bc.is_golden_ticket_count_valid(prec.hash, false, false, false);
+    let spec = BlockSpec { parent: prec.hash, ts: prec.ts + dt, txs: vec![plain], gt: need_gt, creator: 0 };
+    let b = match crate::util::guarded(|| build_block(&c.node, &c.keys, spec)) {
+        Ok(Ok(b)) => b,
+        _ => {
+            r.discarded = true;
+            return r;
+        }
+    };
+    let atr_fees: u64 = b.total_fees_atr;
+    let n_atr = b.transactions.iter().filter(|t| t.transaction_type == TransactionType::ATR).count();
+    if n_atr == 0 || atr_fees == 0 || parent_burnfee / dt == 0 {
+        r.discarded = true;
+        r.probe("atr_family_nothing_to_claim");
+        return r;
+    }
+    // the creator claims the rebroadcast fees as routing work: an (unsigned) hop to itself on every ATR transaction
+    let creator = c.keys[0].clone();
+    let mut forged = b.clone();
+    for t in forged.transactions.iter_mut().filter(|t| t.transaction_type == TransactionType::ATR) {
+        t.path.push(Hop { from: c.keys[1].pk, to: creator.pk, sig: [0u8; 64] });
+    }
+    reseal(&mut forged, &creator, true);
+    r.fault("routing_path_attached_to_rebroadcast_transactions", 1);
+    let mut trace = Digest::new();
+    for (label, blk) in [("honest", &b), ("forged", &forged)] {
+        let mut n = Node::new(&c.cfg, &c.keys[2].clone());
+        for rec in &c.recs {
+            let _ = n.add_block_bytes(&rec.bytes);
+        }
+        if n.tip().1 != prec.hash {
+            r.discarded = true;
+            return r;
+        }
+        let bytes = blk.serialize_for_net(saito_core::core::consensus::block::BlockType::Full);
+        let oc = match crate::util::guarded(|| n.add_block_bytes(&bytes).as_ref().map(outcome_of)) {
+            Ok(oc) => oc,
+            Err(p) => {
+                r.violate(format!("C08|panic|{}", p.site()), format!("rebroadcast family ({} block): {} ({}:{})", label, p.msg, p.file, p.line));
+                return r;
+            }
+        };
+        trace.str(label).str(&format!("{:?}", oc));
+        r.steps += 1;
+        if oc == Some(AddOutcome::Added { longest: true }) {
+            r.violate(
+                format!("C08|accepted|insufficient-work|rebroadcast-fees-claimed|{}", label),
+                format!(
+                    "genesis period {}, block {} offered {} ms after its parent (burn fee {}: requirement {}) with no routed transaction at all was accepted ({} block; {} rebroadcast transactions charging {} in fees{})",
+                    gp,
+                    prec.id + 1,
+                    dt,
+                    parent_burnfee,
+                    parent_burnfee / dt,
+                    label,
+                    n_atr,
+                    atr_fees,
+                    if label == "forged" { ", each with an unsigned hop to the creator attached" } else { "" }
+                ),
+            );
+            return r;
+        }
+    }
+    let mut d = Digest::new();
+    d.u64(gp).u64(dt / 100).u64(n_atr as u64).u64(0xa7c);
+    r.nontrivial.push(d.get());
+    r.state_hash = trace.get();
+    r.trace_hash = trace.get();
+    r
+}
+
 impl Scenario for C08 {
     fn id(&self) -> &'static str {
         "C08"
@@ -198,7 +320,7 @@ impl Scenario for C08 {
     fn meta(&self) -> Meta {
         Meta {
             level: "exploration",
-            rule: "two families. work (a fifth of its runs: one routed transaction whose fee is exactly the integer part of parent burn fee / elapsed at an offset where the fraction is 0.6..0.95, i.e. one nolan below the rounded requirement - must be refused): parent chain of 1-3 blocks, then the same transaction set (1-6/8 payments, fee classes 0..150k nolan, path shapes valid-1/2/3 hops, none, not ending at the creator, passing through the creator but ending elsewhere, forged hop signature, non-contiguous, self-hop) (one transaction in six typed BlockStake instead of Normal; in a third of the runs the block's golden-ticket transaction itself pays a fee from an output of its solver and carries one of the path shapes) bundled at two timestamp offsets drawn from {0.001, 0.05, 0.2, 0.5, 0.9, 1.5, 1.999, 2.0, 2.5} heartbeats (+jitter), each offered to a fresh replica. Oracle: accepted => every path cryptographically valid, contiguous, no self-hop; and for offset < 2 heartbeats independently computed work (u128, halving per hop after the first, only paths ending at the creator) >= parent_burnfee/offset - 1; acceptance at the smaller offset implies acceptance at the larger; offset >= 2 heartbeats needs no work. payout: histories of 4-10/20 blocks with routed fee-paying transactions and four ticket patterns (every 2nd, every 3rd, every block, random); for every accepted block with a Fee transaction: each output goes to the ticket's key, to a hop recipient of a transaction in the blocks being paid (previous; and the one before when the previous had no ticket), or to the sender of a path-less transaction there; sum of outputs <= fees collected by those blocks (u128). In half of the payout runs one step first offers a rival block on the same parent whose golden ticket does not solve the parent's lottery (solved at the parent's difficulty against the grandparent's / the genesis block's / a made-up hash, or aimed at the parent but below its difficulty; only where the parent's difficulty is > 0, reached through the ticket-in-every-block pattern): it must not be accepted; a fifth kind lets the honest block carry a ticket solved by one key inside a golden-ticket transaction signed by another (the miner payout belongs to the solver). distinct_nontrivial = distinct (offset bucket, path-shape multiset, margin sign) resp. (payout history digest).",
+            rule: "three families. rebroadcast (one run in twelve): producer chain with genesis period 3..5 grown past the window with fee-paying payments, then a block 0.1-1.7 s after its parent with no routed transaction, whose rebroadcast (ATR) transactions charge fees: offered as built and with an unsigned hop to the creator attached to every rebroadcast transaction - neither may pass the work gate. work (a fifth of its runs: one routed transaction whose fee is exactly the integer part of parent burn fee / elapsed at an offset where the fraction is 0.6..0.95, i.e. one nolan below the rounded requirement - must be refused): parent chain of 1-3 blocks, then the same transaction set (1-6/8 payments, fee classes 0..150k nolan, path shapes valid-1/2/3 hops, none, not ending at the creator, passing through the creator but ending elsewhere, forged hop signature, non-contiguous, self-hop) (one transaction in six typed BlockStake instead of Normal; in a third of the runs the block's golden-ticket transaction itself pays a fee from an output of its solver and carries one of the path shapes) bundled at two timestamp offsets drawn from {0.001, 0.05, 0.2, 0.5, 0.9, 1.5, 1.999, 2.0, 2.5} heartbeats (+jitter), each offered to a fresh replica. Oracle: accepted => every path cryptographically valid, contiguous, no self-hop; and for offset < 2 heartbeats independently computed work (u128, halving per hop after the first, only paths ending at the creator) >= parent_burnfee/offset - 1; acceptance at the smaller offset implies acceptance at the larger; offset >= 2 heartbeats needs no work. payout: histories of 4-10/20 blocks with routed fee-paying transactions and four ticket patterns (every 2nd, every 3rd, every block, random); for every accepted block with a Fee transaction: each output goes to the ticket's key, to a hop recipient of a transaction in the blocks being paid (previous; and the one before when the previous had no ticket), or to the sender of a path-less transaction there; sum of outputs <= fees collected by those blocks (u128). In half of the payout runs one step first offers a rival block on the same parent whose golden ticket does not solve the parent's lottery (solved at the parent's difficulty against the grandparent's / the genesis block's / a made-up hash, or aimed at the parent but below its difficulty; only where the parent's difficulty is > 0, reached through the ticket-in-every-block pattern): it must not be accepted; a fifth kind lets the honest block carry a ticket solved by one key inside a golden-ticket transaction signed by another (the miner payout belongs to the solver). distinct_nontrivial = distinct (offset bucket, path-shape multiset, margin sign) resp. (payout history digest).",
             real: &["BurnFee", "Transaction::generate_total_work/validate_routing_path/get_winning_routing_node", "Block::validate (work check, golden ticket, fee transaction)", "Block::find_winning_router", "Hop"],
             stubs: &["SimIo", "SimConfig", "vendored ahash"],
             assumptions: &["secp256k1/blake3 wrappers (verify) are trusted primitives of the oracle", "genesis period >> depth"],
@@ -215,6 +337,9 @@ impl Scenario for C08 {
     }
     fn execute(&self, plan: &Value) -> RunResult {
         let plan: Plan = serde_json::from_value(plan.clone()).expect("plan");
+        if plan.mode == "atr-work" {
+            return atr_work_family(&plan);
+        }
         let mut r = RunResult::default();
         let mut params = Params::default();
         params.heartbeat = HB;
